@@ -15,26 +15,20 @@
 	(__CPROVER_is_fresh((m), sizeof(struct nng_msg)) &&                    \
 	    (m)->m_header_len == 0 && (m)->m_refcnt.v == 1 &&                  \
 	    CH_FULL_PRE(&(m)->m_body))
+/* BOUND: a context's receive queue is a heap ring of SUB_QSLOTS slots built by the
+ * harness, every slot holding a real message object (contents unconstrained);
+ * depth (lmq_cap) 1..SUB_QSLOTS, ring position and occupancy symbolic.  (A pointer
+ * predicate on an element of a symbolic-size array makes CBMC run out of memory.) */
+#define SUB_QSLOTS 4
+#define SUB_LMQ_PRE(q)                                                     \
+	((q)->lmq_alloc == SUB_QSLOTS && LMQ_WF_SCALAR(q) && (q)->lmq_cap >= 1)
 /* a message sitting in a receive queue (owned by the queue; may be shared) */
 #define SUB_QUEUED_MSG(m)                                                  \
-	(__CPROVER_is_fresh((m), sizeof(struct nng_msg)) &&                    \
-	    (m)->m_header_len <= MSG_HDRCAP && (m)->m_refcnt.v >= 1 &&         \
+	((m)->m_header_len <= MSG_HDRCAP && (m)->m_refcnt.v >= 1 &&            \
 	    (m)->m_refcnt.v < 1000 && CH_FULL_PRE(&(m)->m_body))
-/* per-context state: a well-formed queue of depth >= 1 (NNG_OPT_RECVBUF is
- * 1..8192), its oldest message a real message; STABLE STATE: receivers wait
- * only while the queue is empty */
-/* receive queue of a context.  BOUND: the queue uses a heap array (lmq_alloc >= 2),
- * as after nni_lmq_init with depth > 2 (the default is 128) or after any
- * nni_lmq_resize; the inline two-slot form is covered by modules/lmq only.
- * (A pointer predicate on an element of the inline buffer would be a write at a
- * symbolic offset into the socket object and defeat field sensitivity.) */
-#define SUB_LMQ_PRE(q)                                                     \
-	((q)->lmq_alloc != 0 && (q)->lmq_alloc <= LMQ_MAXALLOC &&              \
-	    __CPROVER_is_fresh((q)->lmq_msgs, (q)->lmq_alloc * sizeof(nng_msg *)) && \
-	    LMQ_WF_SCALAR(q))
+/* per-context state; STABLE STATE: receivers wait only while the queue is empty */
 #define SUB_CTX_PRE(c, Q)                                                  \
-	(SUB_LMQ_PRE(&(c)->lmq) && (c)->lmq.lmq_cap >= 1 &&                    \
-	    ((Q).n == 0 || (c)->lmq.lmq_len == 0) &&                           \
+	(SUB_LMQ_PRE(&(c)->lmq) && ((Q).n == 0 || (c)->lmq.lmq_len == 0) &&    \
 	    ((c)->lmq.lmq_len == 0 || SUB_QUEUED_MSG(LMQ_VIEW(&(c)->lmq, 0))))
 #define SUB_FULL_OLD(c) (OLD((c)->lmq.lmq_len) >= (c)->lmq.lmq_cap)
 #endif
